@@ -255,11 +255,40 @@ def replay(r):
         {"name": "sig", "data": [5.0, 7.0], "modifiers": [{"name": "mu", "type": "normfactor", "data": None}]},
         {"name": "bkg", "data": [50.0, 60.0], "modifiers": [{"name": "ns", "type": "normsys", "data": {"hi": 1.1, "lo": 0.92}},
                                                             {"name": "hs", "type": "histosys", "data": {"hi_data": [55.0, 63.0], "lo_data": [44.0, 58.0]}}]}]}]}
+    gamma_spec = {"channels": [{"name": "c", "samples": [
+        {"name": "b1", "data": [50.0, 60.0], "modifiers": [{"name": "ss", "type": "shapesys", "data": [5.0, 7.0]}, {"name": "sf", "type": "shapefactor", "data": None}]},
+        {"name": "b2", "data": [20.0, 10.0], "modifiers": [{"name": "st", "type": "staterror", "data": [2.0, 1.5]}]}]}]}
     bad = []
     try:
         pyhf.set_backend(backend, precision="64b")
+        tl, _ = pyhf.get_backend()
+        # (a) models whose parameters are only gathered (no POI): shapesys / staterror / shapefactor
+        gm = pyhf.Model(gamma_spec, poi_name=None)
+        gdata = [75.0, 66.0] + gm.config.auxdata
+        gpoint = [1.0 + 0.07 * (i + 1) * (-1) ** i for i in range(gm.config.npars)]
+        kw, _ = shim(pyhf.infer.mle.twice_nll, gdata, gm, gpoint, gm.config.suggested_bounds(), [], do_grad=True, do_stitch=False)
+        kw0, _ = shim(pyhf.infer.mle.twice_nll, gdata, gm, gpoint, gm.config.suggested_bounds(), [], do_grad=False, do_stitch=False)
+        x = np.asarray(kw["x0"], dtype=float)
+        val, grad = kw["func"](x)
+        grad = np.asarray(grad, dtype=float).reshape(-1)
+        for i in range(len(x)):
+            h = 1e-5
+            xp, xm = x.copy(), x.copy()
+            xp[i] += h
+            xm[i] -= h
+            fd = (float(np.asarray(kw0["func"](xp))) - float(np.asarray(kw0["func"](xm)))) / (2 * h)
+            if len(grad) != len(x) or abs(grad[i] - fd) > 1e-4 * max(1.0, abs(fd)):
+                bad.append({"what": f"gamma-only model without POI: gradient component {i}", "got": grad.tolist(), "finite difference": fd})
+                break
+        # (b) history: the same native tensor handed in twice (as an optimiser loop of that library would)
         model = pyhf.Model(spec, poi_name="mu")
         data = [58.0, 70.0] + model.config.auxdata
+        kw, _ = shim(pyhf.infer.mle.twice_nll, data, model, [1.0, 0.3, -0.4], model.config.suggested_bounds(), [], do_grad=True, do_stitch=False)
+        xt = tl.astensor([1.0, 0.3, -0.4])
+        g1 = np.asarray(tl.tolist(kw["func"](xt)[1]), dtype=float)
+        g2 = np.asarray(tl.tolist(kw["func"](xt)[1]), dtype=float)
+        if not np.allclose(g1, g2, rtol=1e-10, atol=1e-12):
+            bad.append({"what": "second call with the same parameter tensor returns another gradient", "first": g1.tolist(), "second": g2.tolist()})
         for do_stitch in (False, True):
             for point in ([1.0, 0.3, -0.4], [0.5, 1.7, -2.2], [2.0, -1.0, 1.0]):
                 fixed_vals = [(1, point[1])] if do_stitch else []
